@@ -180,6 +180,9 @@ func (in *Interp) decide(cond *Term) bool {
 	if ex == nil {
 		in.unsupported("symbolic branch outside a path (package initialisation)")
 	}
+	if in.spec != nil {
+		panic(pathAbort{"nospec", "decision inside a speculatively executed block"})
+	}
 	tb := in.tb
 	if ex.pos < len(ex.prefix) {
 		d := ex.prefix[ex.pos]
@@ -373,6 +376,9 @@ func (in *Interp) concretize(t *Term, what string) int64 {
 	ex := in.ex
 	if ex == nil {
 		in.unsupported("symbolic %s outside a path", what)
+	}
+	if in.spec != nil {
+		panic(pathAbort{"nospec", "concretisation inside a speculatively executed block"})
 	}
 	tb := in.tb
 	var excluded []int64
